@@ -576,3 +576,28 @@ N("session mode re-recorded at CONNACK as well", ALL,
 B("clean-loss queue drain stops at the first already-fired entry", ["C11"],
   [(PS, "            while queue:\n                request = queue.popleft()\n                if not request.deferred.called:\n                    request.deferred.errback(reason)", "            while queue and not queue[0].deferred.called:\n                request = queue.popleft()\n                request.deferred.errback(reason)")],
   {"C11": ["X-DRAIN"]})
+
+# ---------------------------------------------------------------- variants learnt from the seeded changes of the sub-agents
+B("PUBLISH.decode locates fields with len(self.topic)", ["C01", "C02"], [(PDU, "        topicLen       = decode16Int(packet_remaining)", "        topicLen       = len(self.topic)")], {"C01": ["L5"], "C02": ["S5"]})
+B("decodeLength guard placed after the multiply", ["C01"], [(PDU, "        multiplier *= 0x80\n        if (i & 0x80) != 0x80:", "        multiplier *= 0x80\n        if multiplier > 0x80*0x80*0x80:\n            raise ValueError(\"Malformed Remaining Length\")\n        if (i & 0x80) != 0x80:")], {"C01": ["L1"]})
+N("decodeLength guard placed correctly", ["C01", "C02", "C03", "C17", "C19"], [(PDU, "        multiplier *= 0x80\n        if (i & 0x80) != 0x80:", "        multiplier *= 0x80\n        if multiplier > 0x80*0x80*0x80*0x80:\n            raise ValueError(\"Malformed Remaining Length\")\n        if (i & 0x80) != 0x80:")])
+B("PUBREL DUP patch without the 3.1 test", ["C02", "C08"], [(PS, "        if self._version == v31:\n            reply.encoded[0] |=  (dup << 3)   # set the dup flag\n            reply.dup = dup", "        reply.encoded[0] |=  (dup << 3)   # set the dup flag\n        reply.dup = dup")], {"C02": ["S6"], "C08": ["R-DUP"]})
+B("CONNACK timeout closure returns early when not CONNECTING", ["C04"], [(BASE, "        def connectError():\n            request.deferred.errback", "        def connectError():\n            if self.state is not self.CONNECTING:\n                return\n            request.deferred.errback")], {"C04": ["K2"]})
+B("allocator forgets the release window", ["C09", "C17"], [(FAC, "        for windows in (self.windowPublish, self.windowPubRelease,", "        for windows in (self.windowPublish, self.windowPubRx,")], {"C09": ["Q-ID"], "C17": ["ID-INUSE"]})
+B("refused CONNACK does not return to IDLE", ["C14", "C04"], [(BASE, "        else:\n            self.state = self.IDLE\n            if response.resultCode", "        else:\n            if response.resultCode")], {"C14": ["M-REFUSED"], "C04": ["K2"]})
+B("doPingRequest cancels the previous deadline", ["C15"], [(BASE, "        self._pingReq.alarm = self.callLater(self._pingReq.keepalive, doPingError)", "        if self._pingReq.alarm:\n            self._pingReq.alarm.cancel()\n        self._pingReq.alarm = self.callLater(self._pingReq.keepalive, doPingError)")], {"C15": ["Q6"]})
+B("QoS 3 PUBLISH treated as QoS 2", ["C16", "C06"], [(PS, "        elif response.qos == 2:\n", "        else:\n")], {"C16": ["E5"], "C06": ["P1"]})
+B("in-use test by membership on the hold-back queue", ["C17"],
+  [(FAC, "        for queue in self.queuePublishTx.values():\n            for request in queue:\n                if request.msgId == msgId:\n                    return True\n", "        for queue in self.queuePublishTx.values():\n            if msgId in queue:\n                return True\n")], {"C17": ["ID-INUSE"]})
+B("loss path cancels the alarms of every address", ["C19"],
+  [(PS, "        for _, request in self.factory.windowSubscribe[self.addr].items():\n            if request.alarm is not None:\n                request.alarm.cancel()\n                request.alarm = None\n        for _, request in self.factory.windowUnsubscribe",
+    "        for window in self.factory.windowSubscribe.values():\n            for request in window.values():\n                if request.alarm is not None:\n                    request.alarm.cancel()\n                    request.alarm = None\n        for _, request in self.factory.windowUnsubscribe")], {"C19": ["I-KEY", "I-WHOLE"]})
+B("receive window cleared on every loss", ["C06"], [(PS, "            self._purgeSession(reason)\n\n__all__", "            self._purgeSession(reason)\n        self.factory.windowPubRx[self.addr].clear()\n\n__all__")], {"C06": ["P6"]})
+B("QoS 0 Deferred fired when the packet is written", ["C05"],
+  [(PS, "            request.deferred = defer.succeed(None)", "            request.deferred = defer.Deferred()"),
+   (PS, "            self._retryPublish(request, dup)\n\n\n    def _retryPublish", "            self._retryPublish(request, dup)\n            if request.qos == 0:\n                request.deferred.callback(None)\n\n\n    def _retryPublish")], {"C05": ["R-DROP", "R-WHO-FIRE", "R-FIRE"]})
+B("QoS 0 fast path bypasses the queue", ["C10"],
+  [(PS, "        self.factory.queuePublishTx[self.addr].append(request)\n        request.deferred.msgId = request.msgId\n        self._refillPublish(dup=False)",
+    "        request.deferred.msgId = request.msgId\n        if request.qos == 0 and not self.factory.windowPublish[self.addr]:\n            self._retryPublish(request, False)\n            return request.deferred\n        self.factory.queuePublishTx[self.addr].append(request)\n        self._refillPublish(dup=False)")], {"C10": ["W-FIFO", "W-TRIGGER", "W-ONCE", "W-BOUND"]})
+B("retry re-encodes when the DUP flag flips", ["C08"],
+  [(PS, "        request.encoded[0] |=  (dup << 3)   # set the dup flag\n        request.dup = dup\n", "        if request.dup != dup:\n            request.dup = dup\n            request.encode()\n")], {"C08": ["R-SAME", "R-DUP"]})
